@@ -289,6 +289,11 @@ func relateGen(r *rand.Rand, n int, tier string, emit func(Case)) {
 		}
 		emit(pc)
 	}
+	for i := 0; i < bigExtra(n); i++ { // large sizes
+		l := bigLatticeTo(r, 12, 16)
+		a, b := l.bigPair()
+		emit(pairCase(l, a, b, []int{0, 0, 0, 1, 2, 3}[r.Intn(6)]))
+	}
 }
 
 func xysOf(s geom.Sequence) []geom.XY {
